@@ -17,3 +17,7 @@ type SimGetObjectAPI interface {
 func NewForSim(api SimGetObjectAPI, bucket string) Decoder {
 	return &s3Decoder{client: api, bucket: bucket, metrics: newS3Metrics()}
 }
+
+func DecodeSegmentForSim(segment []byte, topic string, partition int32) ([]Record, error) {
+	return decodeSegment(segment, topic, partition)
+}
